@@ -1,6 +1,7 @@
 (* C02 — source-level tie for the pure helpers of FileResponseMixin (baize/responses.py).
 
-   tools/py2coq_c02.py regenerates, function by function, Gallina definitions G.judge_if_range and G.generate_multipart
+   tools/py2coq_c02.py regenerates, function by function, Gallina definitions G.judge_if_range, G.generate_multipart and
+   G.generate_common_headers
    from the CURRENT Python source on every check run (harness/c02.py: extra_obligations).  For each function the part of
    this file that is about it is re-checked by coqc against the fresh definition: the text before the first METHOD-BEGIN
    marker (the two lines between the GENERATED markers re-pointed at the fresh file) and its own segment.
@@ -150,3 +151,45 @@ Proof.
 Qed.
 Print Assumptions multipart_part_header_latin1.
 (* METHOD-END generate_multipart *)
+
+(* METHOD-BEGIN generate_common_headers *)
+(* The model has the content-disposition value as an input (fr_disp: harness/c02.py computes it).  What the Python computes
+   it to be, written out: a disposition is sent when a download name is given (a non-empty text) or the content type is
+   application/octet-stream; the name is the download name, else the base name of the path; a Latin-1 name is given in both
+   forms, any other name only in the RFC 5987 form.  quote (urllib.parse.quote) and basename (os.path.basename) are
+   arguments. *)
+Definition disposition (basename quote : list N -> list N) (filepath ct : list N) (dn : option (list N)) : option (list N) :=
+  let given := match dn with Some s => negb (PyStr.is_empty s) | None => false end in
+  if given || bytes_eqb ct (lit "application/octet-stream") then
+    let name := if given then match dn with Some s => s | None => [] end else basename filepath in
+    Some (if forallb (fun c => N.ltb c 256) name
+          then lit "attachment; filename=""" ++ name ++ lit """; filename*=utf-8''" ++ quote name
+          else lit "attachment; filename*=utf-8''" ++ quote name)
+  else None.
+
+(* the headers dict, in insertion order, is the model's common_headers for every request record that carries the two
+   validators and the disposition the Python builds: accept-ranges, last-modified, etag, then content-disposition if any *)
+Theorem generate_common_headers_translated :
+  forall (Stat : Type) (generate_etag : Stat -> list N) (formatdate_usegmt : Z -> list N) (int_st_mtime : Stat -> Z)
+         (basename quote : list N -> list N) (filepath ct : list N) (dn : option (list N)) (st : Stat) (r : M.file_req),
+    M.fr_etag r = [34%N] ++ generate_etag st ++ [34%N] ->
+    M.fr_lastmod r = formatdate_usegmt (int_st_mtime st) ->
+    M.fr_disp r = disposition basename quote filepath ct dn ->
+    G.generate_common_headers generate_etag formatdate_usegmt int_st_mtime basename quote filepath ct dn st
+    = M.common_headers r.
+Proof.
+  intros Stat ge fd im basename quote filepath ct dn st r Hetag Hlast Hdisp.
+  unfold G.generate_common_headers, M.common_headers. cbv zeta.
+  rewrite Hdisp, Hetag, Hlast. unfold disposition, PyLib.encode_latin1. cbv zeta.
+  repeat match goal with |- context [PyStr.str_eqb ?x ?y] => rewrite (str_eqb_bytes_eqb x y) end.
+  change [97; 112; 112; 108; 105; 99; 97; 116; 105; 111; 110; 47; 111; 99; 116; 101; 116; 45; 115; 116; 114; 101; 97; 109]%N
+    with (lit "application/octet-stream").
+  rewrite ?(bytes_eqb_sym (lit "application/octet-stream") ct).
+  destruct dn as [s|]; [destruct (PyStr.is_empty s)|]; cbn [negb orb andb];
+    destruct (bytes_eqb ct (lit "application/octet-stream")); cbn [negb orb andb];
+    try reflexivity;
+    match goal with |- context [forallb ?p ?n] => destruct (forallb p n) end;
+    cbn [negb orb andb]; repeat rewrite <- app_assoc; reflexivity.
+Qed.
+Print Assumptions generate_common_headers_translated.
+(* METHOD-END generate_common_headers *)
